@@ -112,8 +112,21 @@ def gen_cases(rng, tier):
     return cases
 
 
+# numbers reported by the implementation are printed through _n: anything outside [0, 2^64) becomes a sentinel >= 2^64 that
+# neither the model nor the declarative diff ever produces, so the case is a concrete oracle failure (the printer is total)
+_BIG = 1 << 64
+
+
+def _n(x):
+    try:
+        x = int(x)
+    except (TypeError, ValueError):
+        return str(_BIG)
+    return str(_BIG + (abs(x) % 1000003)) if (x < 0 or x >= _BIG) else str(x)
+
+
 def cq_kvl(l):
-    return "[" + ";".join("(%d,%d)" % (p[0], p[1]) for p in l) + "]"
+    return "[" + ";".join("(%s,%s)" % (_n(p[0]), _n(p[1])) for p in l) + "]"
 
 
 def cq_shape(s):
@@ -121,7 +134,7 @@ def cq_shape(s):
         return "(Leaf [])"
     if s.get("leaf"):
         return "(Leaf %s)" % cq_kvl(s.get("l") or [])
-    return "(Inner [" + ";".join("(%d,%d,%s)" % (c["k"], c["c"], cq_shape(c["t"])) for c in (s.get("n") or [])) + "])"
+    return "(Inner [" + ";".join("(%s,%s,%s)" % (_n(c["k"]), _n(c["c"]), cq_shape(c["t"])) for c in (s.get("n") or [])) + "])"
 
 
 def cq_on(x):
@@ -134,13 +147,13 @@ def cq_changes(l):
     out = []
     for t, k, f, to in l:
         if t == 1:
-            out.append("Added %d %d" % (k, to))
+            out.append("Added %s %s" % (_n(k), _n(to)))
         elif t == 3:
-            out.append("Removed %d %d" % (k, f))
+            out.append("Removed %s %s" % (_n(k), _n(f)))
         elif t == 2:
-            out.append("Modified %d %d %d" % (k, f, to))
+            out.append("Modified %s %s %s" % (_n(k), _n(f), _n(to)))
         else:
-            out.append("Modified 0 0 0")
+            out.append("Modified %s 0 0" % _BIG)
     return "(Some [" + ";".join(out) + "])"
 
 
